@@ -1,9 +1,17 @@
 package main
 
-// Goroutines, mutexes, channels.  Placeholder single-threaded semantics; the
-// cooperative scheduler for C18 replaces these.
+// Goroutines, mutexes, channels.
+//
+// Scheduling itself is written in Go in the harness runtime (verifrt: enabled
+// sets, mutex table, schedule choices drawn as ordinary solver-decided
+// Choices) and is interpreted like any other code, so the native replay runs
+// exactly the same logic.  The engine only provides the primitives
+// spawn/switchTo/exitTo (host goroutines passing a baton: one interpreted
+// goroutine runs at a time) and a happens-before race detector fed by the
+// hbRelease/hbAcquire/hbFork calls of that runtime.
 
 import (
+	"fmt"
 	"go/token"
 	"go/types"
 
@@ -16,18 +24,251 @@ const (
 	tokenXOR = token.XOR
 )
 
-type scheduler struct{}
+type gctx struct {
+	id       int
+	resume   chan struct{}
+	exited   chan struct{}
+	started  bool
+	finished bool
+	depth    int
+}
+
+type vclock map[int]int
+
+func (a vclock) join(b vclock) {
+	for k, v := range b {
+		if v > a[k] {
+			a[k] = v
+		}
+	}
+}
+
+func (a vclock) clone() vclock {
+	c := vclock{}
+	for k, v := range a {
+		c[k] = v
+	}
+	return c
+}
+
+type cellShadow struct {
+	wg, wc int // last write: goroutine, clock (wg < 0: none)
+	reads  map[int]int
+}
+
+type scheduler struct {
+	gs      map[int]*gctx
+	cur     int
+	abort   bool
+	pending any // panic of a non-main goroutine, to be re-raised in main
+	vc      map[int]vclock
+	locks   map[any]vclock
+	shadow  map[any]*cellShadow
+	races   int
+}
+
+func (in *interp) schedInit() *scheduler {
+	if in.sched == nil {
+		s := &scheduler{gs: map[int]*gctx{}, vc: map[int]vclock{}, locks: map[any]vclock{}, shadow: map[any]*cellShadow{}}
+		s.gs[0] = &gctx{id: 0, resume: make(chan struct{}), started: true}
+		s.vc[0] = vclock{0: 1}
+		in.sched = s
+	}
+	return in.sched
+}
+
+// spawn registers goroutine id running f; it starts when first switched to.
+func (in *interp) spawn(id int, f value) {
+	s := in.schedInit()
+	g := &gctx{id: id, resume: make(chan struct{}), exited: make(chan struct{})}
+	s.gs[id] = g
+	go func() {
+		defer close(g.exited)
+		<-g.resume
+		if s.abort {
+			return
+		}
+		g.started = true
+		defer func() {
+			g.finished = true
+			r := recover()
+			if r == nil {
+				return
+			}
+			if a, ok := r.(abortPath); ok && a.kind == abortStop && s.abort {
+				return // torn down
+			}
+			// hand the panic to the main goroutine
+			s.pending = r
+			s.abort = true
+			s.cur = 0
+			s.gs[0].resume <- struct{}{}
+		}()
+		in.depth = 0
+		in.call(nil, 0, f, nil)
+	}()
+}
+
+func (in *interp) switchTo(from, to int) {
+	s := in.sched
+	if s == nil {
+		panic(in.unsupported("scheduler primitive without a scheduler"))
+	}
+	gFrom, gTo := s.gs[from], s.gs[to]
+	if gTo == nil || gFrom == nil {
+		panic(fmt.Sprintf("switchTo: unknown goroutine %d -> %d", from, to))
+	}
+	gFrom.depth = in.depth
+	s.cur = to
+	gTo.resume <- struct{}{}
+	<-gFrom.resume
+	in.depth = gFrom.depth
+	in.afterResume(from)
+}
+
+func (in *interp) afterResume(id int) {
+	s := in.sched
+	if s.pending != nil && id == 0 {
+		p := s.pending
+		s.pending = nil
+		panic(p)
+	}
+	if s.abort {
+		panic(abortPath{abortStop, "scheduler teardown"})
+	}
+}
+
+// exitTo ends the current goroutine and passes the baton on.
+func (in *interp) exitTo(to int) {
+	s := in.sched
+	s.gs[s.cur].finished = true
+	s.cur = to
+	s.gs[to].resume <- struct{}{}
+}
+
+// teardownSched releases every host goroutine of the finished path.
+func (in *interp) teardownSched() {
+	s := in.sched
+	if s == nil {
+		return
+	}
+	s.abort = true
+	for id, g := range s.gs {
+		if id == 0 || g.exited == nil {
+			continue
+		}
+		select {
+		case <-g.exited:
+			continue
+		default:
+		}
+		// blocked on its resume channel (never started, or parked)
+		select {
+		case g.resume <- struct{}{}:
+		case <-g.exited:
+		}
+		<-g.exited
+	}
+	in.sched = nil
+}
+
+// ------------------------------------------------------------ happens-before
+
+func (in *interp) hbRelease(key any) {
+	s := in.sched
+	if s == nil {
+		return
+	}
+	vc := s.vc[s.cur]
+	l := s.locks[key]
+	if l == nil {
+		l = vclock{}
+		s.locks[key] = l
+	}
+	l.join(vc)
+	vc[s.cur]++
+}
+
+func (in *interp) hbAcquire(key any) {
+	s := in.sched
+	if s == nil {
+		return
+	}
+	if l := s.locks[key]; l != nil {
+		s.vc[s.cur].join(l)
+	}
+}
+
+func (in *interp) hbFork(child int) {
+	s := in.schedInit()
+	p := s.vc[s.cur]
+	c := p.clone()
+	c[child] = 1
+	s.vc[child] = c
+	p[s.cur]++
+}
+
+// raceCheck is called for every load (write=false) and store (write=true) of
+// a heap cell or map while more than one goroutine exists.
+func (in *interp) raceCheck(key any, write bool) {
+	s := in.sched
+	if s == nil || len(s.gs) < 2 || in.inVerifrt > 0 || in.path == nil {
+		return
+	}
+	sh := s.shadow[key]
+	if sh == nil {
+		sh = &cellShadow{wg: -1}
+		s.shadow[key] = sh
+	}
+	g := s.cur
+	vc := s.vc[g]
+	racy := false
+	other := sh.wg
+	if sh.wg >= 0 && sh.wg != g && sh.wc > vc[sh.wg] {
+		racy = true
+	}
+	if write {
+		for rg, rc := range sh.reads {
+			if rg != g && rc > vc[rg] {
+				racy = true
+				other = rg
+			}
+		}
+		sh.wg, sh.wc = g, vc[g]
+		sh.reads = nil
+	} else {
+		if sh.reads == nil {
+			sh.reads = map[int]int{}
+		}
+		sh.reads[g] = vc[g]
+	}
+	if racy && s.races == 0 {
+		s.races++
+		in.ensureModel()
+		where := "?"
+		if in.curFn != nil {
+			where = in.curFn.String()
+			if in.curInstr != nil && in.curInstr.Pos().IsValid() {
+				where += " " + in.posString(in.curInstr.Pos())
+			}
+		}
+		in.reportViolation("no data race", fmt.Sprintf("unsynchronised access by goroutine %d (write=%v) conflicts with goroutine %d in %s", g, write, other, where), in.path.model)
+	}
+}
+
+// ------------------------------------------------------------ plain semantics
+// (used outside scheduled harnesses)
 
 func (in *interp) yield(why string) {}
 
-func (in *interp) mutexLock(p *value)        {}
-func (in *interp) mutexUnlock(p *value)      {}
+func (in *interp) mutexLock(p *value)         {}
+func (in *interp) mutexUnlock(p *value)       {}
 func (in *interp) mutexTryLock(p *value) bool { return true }
-func (in *interp) wgAdd(p *value, n int)     {}
-func (in *interp) wgWait(p *value)           {}
+func (in *interp) wgAdd(p *value, n int)      {}
+func (in *interp) wgWait(p *value)            {}
 
 func (in *interp) goStart(fr *frame, instr *ssa.Go, fn value, args []value) {
-	panic(in.unsupported("go statement (no scheduler in this run)"))
+	panic(in.unsupported("go statement outside verifrt.Go (goroutines are started through the harness runtime)"))
 }
 
 func (in *interp) makeChan(n int, elem types.Type) *Chan {
@@ -84,3 +325,54 @@ func (in *interp) doSelect(fr *frame, instr *ssa.Select) value {
 	panic(in.unsupported("select statement"))
 }
 
+func init() {
+	verifrtFns["spawn"] = func(fr *frame, args []value) (value, bool) {
+		fr.in.spawn(int(asInt64(args[0])), args[1])
+		return done(nil)
+	}
+	verifrtFns["switchTo"] = func(fr *frame, args []value) (value, bool) {
+		fr.in.switchTo(int(asInt64(args[0])), int(asInt64(args[1])))
+		return done(nil)
+	}
+	verifrtFns["exitTo"] = func(fr *frame, args []value) (value, bool) {
+		fr.in.exitTo(int(asInt64(args[0])))
+		return done(nil)
+	}
+	hbKey := func(v value) any {
+		if it, ok := v.(iface); ok {
+			return hbKeyOf(it.v)
+		}
+		return hbKeyOf(v)
+	}
+	verifrtFns["hbRelease"] = func(fr *frame, args []value) (value, bool) {
+		fr.in.hbRelease(hbKey(args[0]))
+		return done(nil)
+	}
+	verifrtFns["hbAcquire"] = func(fr *frame, args []value) (value, bool) {
+		fr.in.hbAcquire(hbKey(args[0]))
+		return done(nil)
+	}
+	verifrtFns["hbFork"] = func(fr *frame, args []value) (value, bool) {
+		fr.in.hbFork(int(asInt64(args[0])))
+		return done(nil)
+	}
+	verifrtFns["schedReset"] = func(fr *frame, args []value) (value, bool) {
+		fr.in.schedInit()
+		return done(nil)
+	}
+}
+
+func hbKeyOf(v value) any {
+	switch x := v.(type) {
+	case *value:
+		return x
+	case *Chan:
+		return x
+	case *Map:
+		return x
+	}
+	if _, u, ok := unboxInt(v); ok {
+		return fmt.Sprintf("g%d", u)
+	}
+	return fmt.Sprintf("%v", v)
+}
